@@ -277,10 +277,12 @@ def eval_cases(d, timeout=3000):
 
 
 def load_known(prop):
-    path = os.path.join(VERIF, "known_findings.json")
-    if not os.path.exists(path):
-        return []
-    return [f for f in json.load(open(path))["findings"] if f["property"] == prop and f.get("status") == "known"]
+    out = []
+    paths = [os.path.join(VERIF, "known_findings.json")] + sorted(glob.glob(os.path.join(VERIF, "known_findings.d", "*.json")))
+    for path in paths:
+        if os.path.exists(path):
+            out += [f for f in json.load(open(path))["findings"] if f["property"] == prop and f.get("status") == "known"]
+    return out
 
 
 def match_known(known, kind, code):
